@@ -314,6 +314,37 @@ theorem PIPE_instant_non_time (env : Env) (A Q : Ast) (I : Instant.Inst) (mag : 
   · simp only [evalE_bin, hA, hQ, bind, Except.bind]
     exact (dispatch_qty_plus_inst _ I mag dim).trans (by rw [hp]; rfl)
 
+/-- **What is printed for an instant, and that it reads back** (C15's clause for instants, C17's "printed
+    ISO text").  A program whose value is the instant `I` prints exactly `datetime.isoformat()` of it —
+    `YYYY-MM-DDTHH:MM:SS`, with `.ffffff` when the microsecond is not zero (`isoText`) — and a newline;
+    and for every valid instant that text, written back as an instant literal, evaluates to `I` itself
+    (the re-entry text `#…#` round-trips; transport of `C17_fields` and `C17_civil_roundtrip`). -/
+theorem PIPE_instant_display (env env' : Env) (t : Ast) (hi : checkInstants (instTexts t) = none) (I : Instant.Inst)
+    (hv : runProgram env t = (env', .ok (.inst I))) :
+    runTree env t = (env', .ok (String.ofList (isoText I ++ ['\n']))) ∧
+    (I.valid → ∀ env'', evalE env'' (.inst (String.ofList (isoText I))) = .ok (.inst I)) := by
+  refine ⟨(PIPE_display env env' t hi _ hv).1 (.inst (isoText I)) rfl, fun hI env'' => ?_⟩
+  obtain ⟨h0, h1, h2⟩ := hI
+  have hn : I.day.toNat < Instant.maxDay := by omega
+  obtain ⟨hvd, hfc⟩ := C17_civil_roundtrip.2 I.day.toNat hn
+  have hus : I.us < 86400000000 := h2
+  have hh : I.hour < 24 := by unfold Instant.Inst.hour; omega
+  have hmi : I.minute < 60 := by unfold Instant.Inst.minute; omega
+  have hs : I.second < 60 := by unfold Instant.Inst.second; omega
+  have hmu : I.micro < 1000000 := by unfold Instant.Inst.micro; omega
+  obtain ⟨f1, _, f3, _⟩ := C17_fields I.year I.month I.dayOfMonth I.hour I.minute I.second I.micro 'T' hvd hh hmi hs hmu (Or.inl rfl)
+  have hday : ((Instant.fromCivil I.year I.month I.dayOfMonth : Nat) : Int) = I.day := by
+    have : Instant.fromCivil I.year I.month I.dayOfMonth = I.day.toNat := hfc
+    rw [this]; omega
+  have hrec : ((I.hour * 60 + I.minute) * 60 + I.second) * 1000000 + I.micro = I.us := by
+    unfold Instant.Inst.hour Instant.Inst.minute Instant.Inst.second Instant.Inst.micro; omega
+  simp only [evalE, instLeaf, String.toList_ofList, isoText]
+  by_cases hz : I.micro = 0
+  · simp only [hz, if_true, f3]
+    have : ((I.hour * 60 + I.minute) * 60 + I.second) * 1000000 + 0 = I.us := by rw [← hrec, hz]
+    rw [this, hday]
+  · simp only [hz, if_false, f1, hrec, hday]
+
 /-! ## C08: probability -/
 
 section Probability
